@@ -61,6 +61,37 @@ ZERO_P = {"version": 0, "local_epoch": 0, "remote_epoch": 0, "local_random": "",
           "is_client": False, "certs": [], "hint": "", "session_id": "", "alpn": ""}
 
 
+# record-protection class of each suite id (same table as suite_table in State/C19Export.v, which the
+# suites leg ties to ciphersuite.ForID and the corrupt leg to observed interchangeability)
+SUITE_CLASS = {168: 1, 174: 2, 4865: 0, 4866: 0, 4867: 0, 49162: 3, 49172: 3, 49195: 1, 49196: 4, 49199: 1,
+               49200: 4, 49207: 2, 49316: 5, 49320: 6, 49321: 7, 49324: 5, 49326: 6, 52392: 8, 52393: 8, 52395: 8}
+KEY_FIELDS = ("master", "local_random", "remote_random", "is_client")
+
+
+def protection_inputs_hit(c):
+    """Classify a decoded-but-different state whose connection still authenticates records.
+    Inputs of record protection and addressing: master secret, both randoms, suite protection class,
+    is_client (both directions); local epoch and remote connection id (records the resumed side
+    writes); local connection id and the set of epochs it reads, i.e. remote epoch lowered below
+    the peer's sending epoch (records it receives). A direction counts only if a record was
+    actually delivered in it. Returns (class, explanation)."""
+    o, d, diff = c["orig"], c["decoded"], set(c["diff"])
+    hit = [f for f in KEY_FIELDS if f in diff]
+    if "suite" in diff and SUITE_CLASS.get(o["suite"], -1) != SUITE_CLASS.get(d["suite"], -2):
+        hit.append("suite(protection class)")
+    if c["x2p"]:
+        hit += [f for f in ("local_epoch", "remote_cid") if f in diff]
+    if c["p2x"]:
+        hit += [f for f in ("local_cid",) if f in diff]
+        peer_epoch = (c.get("peer") or {}).get("local_epoch", 1)
+        if "remote_epoch" in diff and d["remote_epoch"] < peer_epoch:
+            hit.append("remote_epoch(lowered)")
+    if hit:
+        return "record-protection inputs", "inputs of a direction that still delivered differ: %s" % hit
+    return "fields outside the record-protection inputs", ""
+
+
+
 # ----------------------------------------------------------------- implementation-side monitors
 
 def resumed(c):
@@ -158,26 +189,32 @@ def run(chk):
     live.sort(key=lambda c: (0 if c["x2p"] and c["p2x"] else 1,
                              pref.index(c["diff"][0]) if len(c["diff"]) == 1 and c["diff"][0] in pref else len(pref),
                              0 if c["mut"].startswith("flip") else 1, c["base"], c["mut"]))
-    live_fields = {}
+    live_fields = {"fields outside the record-protection inputs": {}, "record-protection inputs": {}}
+    first = {}
     for c in live:
+        cls, why = protection_inputs_hit(c)
         k = ",".join(c["diff"])
-        live_fields[k] = live_fields.get(k, 0) + 1
-    if live:
-        c = live[0]
+        live_fields[cls][k] = live_fields[cls].get(k, 0) + 1
+        if cls not in first:
+            first[cls] = (c, why)
+    for cls in ("record-protection inputs", "fields outside the record-protection inputs"):
+        if cls not in first:
+            continue
+        c, why = first[cls]
         b = bases.get((c["base"], c["side"]), {})
         found_input = True
         chk.finding("state.go UnmarshalBinary (serializedState has no integrity check)",
-                    {"monitor": "corrupted-state-accepted-and-authenticates"},
+                    {"monitor": "corrupted-state-accepted-and-authenticates", "differs_in": cls},
                     "corrupted serialised state is accepted and the resumed connection still exchanges authenticated "
-                    "records (decoded state differs from the exported one in: %s; such cases this run: %s)"
-                    % (",".join(c["diff"]), live_fields),
+                    "records (decoded state differs from the exported one in: %s%s; such cases this run: %s)"
+                    % (",".join(c["diff"]), "" if not why else "; " + why, live_fields[cls]),
                     {"how": "UnmarshalBinary(bytes_hex) succeeds; resumeWithConfig from it against a peer resumed "
                             "from peer_state_hex (the untouched peer's own export): one record each way; x2p/p2x say "
                             "which were delivered",
                      "mutation": c["mut"], "bytes_hex": c["hex"], "original_hex": b.get("orig_hex"),
                      "peer_state_hex": b.get("peer_hex"), "base": c["base"], "side": c["side"],
-                     "differs_in": c["diff"], "x2p": c["x2p"], "p2x": c["p2x"],
-                     "fields_hit_in_this_run": live_fields, "rerun": rerun})
+                     "differs_in": c["diff"], "class": cls, "x2p": c["x2p"], "p2x": c["p2x"],
+                     "fields_hit_in_this_run": live_fields[cls], "rerun": rerun})
 
     # observations outside the letter of C19 (evidence only)
     obs = {}
@@ -267,7 +304,7 @@ def run(chk):
                            for c in corrupt if c["result"] == "ok-diff"][-2:])
         chk.leg_info("corrupt", results=results, bases=sorted({c["base"] for c in corrupt}),
                      truncations="every prefix of each base state",
-                     accepted_and_live_by_field=live_fields)
+                     accepted_and_live_by_class_and_field=live_fields)
 
         # suite table
         sterms = ["(%d, %s, %s, %s, %s, %d)" % (c["id"], cbool(c["known"]), cbool(c["v13"]), cbool(c["init_ok"]),
